@@ -199,7 +199,15 @@ def text_stream(rng, n_valid, n_malformed):
     mal = gen.size_probes(thorough=(n_malformed > 5000)) + mal
     # characters that look like nothing (BOM, zero-width …) in front of / behind / inside otherwise valid texts
     mal = gen.invisible_probes(valid[:12], rng, per_base=(3 if n_malformed <= 5000 else 13)) + mal
-    return valid, mal
+    # syntactically fine but statically invalid files (every violation kind of the C10 injector, alone and several of
+    # one kind): what validation lets through by mistake reaches the later stages, which trust it and unwrap
+    inv = []
+    while len(inv) < max(60, n_valid // 2):
+        base = gen.random_grammar(rng, names=rng.choice(["plain", "adversarial"]), payload="mixed", derive=False)
+        r = gen.multi_violation(base, rng) if len(inv) % 4 == 3 else gen.inject_violation(base, rng)
+        if r:
+            inv.append(gen.render(r[0], rng if rng.random() < 0.3 else None))
+    return valid, inv + mal
 
 
 # =========================================================================================== C08
